@@ -70,6 +70,79 @@ def weave_unsigned_shift(w, sc):
     w.contract(sc["unsigned_shift.contract"], ret="r")
 
 
+HOLE_STUB = """// R6: bodies of `Unifier(..) =>` arms whose syntax Verus rejects are replaced by a call to this
+// function.  Its precondition is `false`, so the verifier must prove the arm unreachable.
+#[verifier::external_body]
+pub fn hole_arm_unreachable<'a>() -> Term<'a>
+    requires false,
+{ unreachable!() }
+#[verifier::external_body]
+pub fn hole_arm_unreachable_opt<'a>() -> Option<Term<'a>>
+    requires false,
+{ unreachable!() }
+"""
+
+DEFS_TY = "Vec<(&'a str, Rc<Term<'a>>, Rc<Term<'a>>)>"
+
+
+def drop_hole_arm(w, head_regex, stub_call):
+    """R6: replace the body of the Unifier arm by a call that requires false."""
+    i = w.find(head_regex)
+    j = w.block_end(i)
+    ind = " " * (len(w.lines[i]) - len(w.lines[i].lstrip()) + 4)
+    w.log["dropped"].append({"site": w._where(i + 1), "text": "\n".join(w.lines[i + 1 : j]), "why": "R6: hole arm; unreachable under the hole-free precondition (checked: replaced by a call requiring false)"})
+    w.rewrite_lines("R6-hole-arm", i + 1, j - 1, [ind + stub_call], note="arm body replaced by a call whose precondition is false")
+
+
+def map_collect_to_loop(w, first_regex, iter_name, invariant, body_pre=None, elem_ty=DEFS_TY, nth=1):
+    """R4: `E.iter().map(|PAT| BODY).collect()` (rustfmt's multi-line layout) ->
+    `{ let mut out: TY = Vec::new(); for PAT in it: E.iter() invariant .. { out.push(BODY); } out }`.
+    E, PAT and BODY are copied verbatim."""
+    i = w.find(first_regex, nth)
+    ind = " " * (len(w.lines[i]) - len(w.lines[i].lstrip()))
+    recv = w.lines[i].strip()
+    if w.lines[i + 1].strip() != ".iter()":
+        raise LostAnchor(f"{w._where(i+1)}: expected `.iter()`")
+    m = re.match(r"^\s*\.map\(\|(.*)\| \{$", w.lines[i + 2])
+    if not m:
+        raise LostAnchor(f"{w._where(i+2)}: expected `.map(|PAT| {{`")
+    pat = m.group(1)
+    j = w.block_end(i + 2)
+    if w.lines[j].strip() != "})":
+        raise LostAnchor(f"{w._where(j)}: expected the end of the map closure")
+    tail = w.lines[j + 1].strip()
+    if tail not in (".collect(),", ".collect();", ".collect()"):
+        raise LostAnchor(f"{w._where(j+1)}: expected `.collect()`")
+    body = w.lines[i + 3 : j]
+    new = [ind + "{", ind + f"    let mut out: {elem_ty} = Vec::new();", ind + f"    for {pat} in {iter_name}: {recv}.iter()"]
+    new += invariant.rstrip("\n").split("\n")
+    new += [ind + "    {"]
+    if body_pre:
+        new += body_pre.rstrip("\n").split("\n")
+    new += [ind + "    out.push("] + body + [ind + "    );", ind + "    }", ind + "    out", ind + "}" + tail[len(".collect()"):]]
+    w.rewrite_lines("R4-map-collect", i, j + 1, new, note="iterator adapter chain that only builds a Vec, as an explicit push loop")
+
+
+def weave_open(w, sc):
+    w.contract(sc["open.contract"], ret="r")
+    w.body_first(sc["open.first"])
+    drop_hole_arm(w, r"^        Unifier\(subterm, subterm_shift\) => \{$", "hole_arm_unreachable()")
+    w.before(r"^\s*let new_index_to_replace = index_to_replace \+ definitions\.len\(\);$", sc["open.let.pre"])
+    map_collect_to_loop(w, r"^\s*definitions$", "it", sc["open.let.loop"], body_pre=sc["open.let.body"])
+    w.bind_tail(r"^            Term \{$", "opened", sc["open.let.tail.post"])
+
+
+def weave_free_variables(w, sc):
+    w.contract(sc["free_variables.contract"])
+    w.body_first(sc["free_variables.first"])
+    w.before(r"^\s*for \(_, annotation, definition\) in definitions \{$", sc["free_variables.let.pre"])
+    w.for_invariant(1, "it", sc["free_variables.let.loop"])
+    i = w.find(r"^\s*free_variables\(annotation, cutoff \+ definitions\.len\(\), variables\);$")
+    w.lines[i:i] = sc["free_variables.let.body"].rstrip("\n").split("\n")
+    w.after(r"^\s*free_variables\(definition, cutoff \+ definitions\.len\(\), variables\);$", sc["free_variables.let.body.end"])
+    w.after(r"^\s*free_variables\(body, cutoff \+ definitions\.len\(\), variables\);$", sc["free_variables.let.post"])
+
+
 def build_core(repo, upto="U2"):
     log = new_log()
     sc = sections(os.path.join(VERIF, "contracts/u1.vrs"))
@@ -99,6 +172,7 @@ def build_core(repo, upto="U2"):
     out.append(v.text() + "\n")
     out.append(CLONE_IMPLS)
     out.append(VARIANT_IMPORT)
+    out.append(HOLE_STUB)
     out.append(read("spec/core_spec.rs"))
 
     fns = []
@@ -107,7 +181,12 @@ def build_core(repo, upto="U2"):
     weave_signed_shift(ss, sc)
     us = Woven(db_rs, "fn", "unsigned_shift", log)
     weave_unsigned_shift(us, sc)
-    fns += [ss, us]
+    op = Woven(db_rs, "fn", "open", log)
+    strip_clippy(op)
+    weave_open(op, sc)
+    fv = Woven(term_rs, "fn", "free_variables", log)
+    weave_free_variables(fv, sc)
+    fns += [ss, us, op, fv]
 
     for f in fns:
         out.append(f.text() + "\n")
